@@ -592,6 +592,72 @@ func c01Presence(c *Ctx, pp *pop.Population, tr *an.Tracer) {
 	switch shape {
 	case "per-group":
 		r.Hold("R01.F", "encoder:presence-shape", site, "emission of a conditional field is decided by the accumulated flags word (per group): agrees with the decoder for every type")
+		// … and by nothing else: with the bit set (and the field neither ignored nor a bare flag) every way round the
+		// loop passes the emission; a second condition (nil member, zero value) would omit a field the decoder reads
+		shapeIf := shapeSite.(*ssa.If)
+		scd, _ := an.Classify(shapeIf)
+		appendBlk := map[*ssa.BasicBlock]bool{}
+		for _, cs := range an.CallsNamed(enc, "builtin:append") {
+			if shapeIf.Block().Dominates(cs.Block) {
+				appendBlk[cs.Block] = true
+			}
+		}
+		decide := func(i *ssa.If) (int, bool) {
+			if i == shapeIf {
+				return scd.EdgeWhen(false).Succ, true // bit set
+			}
+			cd, ok := an.Classify(i)
+			if !ok {
+				return 0, false
+			}
+			o := ""
+			if cd.X != nil {
+				o = tr.OriginString(cd.X)
+			}
+			switch {
+			case cd.Kind == "bool" && (strings.Contains(o, "tl.fieldTag.encodedInBitflag") || strings.Contains(o, "tl.fieldTag.ignore")):
+				return cd.EdgeWhen(false).Succ, true
+			case cd.Kind == "nil" && strings.Contains(o, "tl.parseTag"):
+				return cd.EdgeWhen(false).Succ, true // tagged field
+			}
+			return 0, false
+		}
+		_, exec := an.ReachExec(enc, nil, decide)
+		seen := map[*ssa.BasicBlock]bool{}
+		var skips func(b *ssa.BasicBlock) *ssa.BasicBlock
+		skips = func(b *ssa.BasicBlock) *ssa.BasicBlock {
+			for si, s := range b.Succs {
+				if !exec[an.Edge{From: b, Succ: si}] || appendBlk[s] {
+					continue
+				}
+				if s == shapeIf.Block() {
+					return b
+				}
+				if !seen[s] && shapeIf.Block().Dominates(s) || (!seen[s] && reachesBlock(s, shapeIf.Block(), map[*ssa.BasicBlock]bool{})) {
+					seen[s] = true
+					if via := skips(s); via != nil {
+						return via
+					}
+				}
+			}
+			return nil
+		}
+		if len(appendBlk) == 0 {
+			r.Undecide("R01.F", "encoder:presence-only-by-flag", site, "no emission (append) found behind the flags test")
+		} else if via := skips(shapeIf.Block()); via != nil {
+			pos := site
+			if len(via.Instrs) > 0 {
+				pos = c.pos(via.Instrs[len(via.Instrs)-1].Pos())
+				for _, in := range via.Instrs {
+					if in.Pos().IsValid() {
+						pos = c.pos(in.Pos())
+					}
+				}
+			}
+			r.Violate("R01.F", "encoder:presence-only-by-flag", pos, "with the group's bit set the loop can go on to the next field without emitting this one (a further condition on the field's value): the decoder reads every field of a present group, so the rest of the object is read from the wrong offset")
+		} else {
+			r.Hold("R01.F", "encoder:presence-only-by-flag", site, "with the bit set every path round the loop emits the field (or aborts with an error)")
+		}
 	case "per-field":
 		// agreement holds exactly for types in which no flag bit carries two fields
 		n := 0
